@@ -930,7 +930,9 @@ def run(ctx: Any, prog: Program) -> None:
                     if rrole is not None and wrole is not None:
                         ctx.check('C15.F6', rrole == wrole, vtf, b.node, f'sheet v{ver}: read() uses slot {i} (`{rn}`) as {rrole} where make_data packs `{wn}` ({wrole})', func='SheetSequence.make_data', text=f'sheet v{ver} slot {i} {rrole}')
     fsrc, msrc = U(fr_), U(mk)
-    ver_if = [n for n in ast.walk(fr_) if isinstance(n, ast.If) and U(n.test) == 'version == 0']
+    from engine.model import fold_small_constants as _fsc
+    fr_n = _fsc(fr_)          # named strides (`coord_size = 16`) and `[... for i in range(4)]` read like the literals they stand for
+    ver_if = [n for n in ast.walk(fr_n) if isinstance(n, ast.If) and U(n.test) == 'version == 0']
     if len(ver_if) != 1:
         ctx.shape('C15.F6', False, vtf, fr_, 'version dispatch of the coordinate blocks not found', func='SheetSequence.from_resource', text='coordinate block sizes')
     else:
